@@ -45,6 +45,11 @@ func (c *Canon) expr(v ssa.Value) lin {
 		return lin{"p:" + x.Name(), 0}
 	case *ssa.FreeVar:
 		return lin{"fv:" + x.Name(), 0}
+	case *ssa.FieldAddr:
+		if promotedThrough(x.X.Type(), x.Field) {
+			return c.expr(x.X) // &s.position stands for s: its fields are fields of s
+		}
+		return lin{"v:" + vname(v), 0}
 	case *ssa.Convert:
 		ft, ok1 := x.X.Type().Underlying().(*types.Basic)
 		tt, ok2 := x.Type().Underlying().(*types.Basic)
@@ -97,6 +102,9 @@ func (c *Canon) expr(v ssa.Value) lin {
 		}
 		return lin{"v:" + vname(v), 0}
 	case *ssa.Field:
+		if promotedThrough(x.X.Type(), x.Field) {
+			return c.expr(x.X)
+		}
 		fn := fieldName(x.X.Type(), x.Field)
 		return lin{linStr(c.expr(x.X)) + "." + fn, 0}
 	case *ssa.Call:
